@@ -317,9 +317,10 @@ class Repo:
     def cmdline(self, *args):
         """(argv, cwd) for starting monorail on this repository under a controller: from the repository
         root, or - after foreign_cwd() - as `-f <abs config>` from the other directory."""
+        g = list(getattr(self, "global_flags", None) or [])
         if getattr(self, "invoke_cwd", None):
-            return [common.MONORAIL, "-f", os.path.join(self.dir, "Monorail.json")] + list(args), self.invoke_cwd
-        return [common.MONORAIL] + list(args), self.dir
+            return [common.MONORAIL] + g + ["-f", os.path.join(self.dir, "Monorail.json")] + list(args), self.invoke_cwd
+        return [common.MONORAIL] + g + list(args), self.dir
 
     def mr(self, *args, env=None, timeout=120, stdin=None, cwd=None):
         """Runs the hooks-on monorail binary in the repository; returns Result."""
@@ -327,6 +328,7 @@ class Repo:
             cwd = self.invoke_cwd
             args = ("-f", os.path.join(self.dir, "Monorail.json")) + tuple(args)
         e = self.s.env(env)
+        args = tuple(getattr(self, "global_flags", None) or []) + tuple(args)
         try:
             r = subprocess.run([common.MONORAIL] + list(args), cwd=cwd or self.dir, env=e,
                                capture_output=True, timeout=timeout, input=stdin)
@@ -366,9 +368,12 @@ def _last_json(b):
         line = line.strip()
         if line.startswith("{"):
             try:
-                return json.loads(line)
+                d = json.loads(line)
             except Exception:
                 continue
+            if isinstance(d, dict) and "level" in d and "message" in d and "kind" not in d:
+                continue   # a diagnostic line of a verbose invocation, not the document
+            return d
     return None
 
 
